@@ -357,11 +357,14 @@ def main():
     for k in sorted(sample_scns):
         chk.sample({"scenario": sample_scns[k].splitlines()})
     chk.coverage["rule"] = (
-        "Resolution.tla exhaustively: every family of 1..%d overloads of one arity drawn from %s candidates x every argument tuple "
-        "of that arity x every registration order (+ mixed-arity families); each (family, arguments) is replayed in all registration "
-        "orders (and every candidate alone) against the real OperatorRegistry; plus random families of 4-6 overloads from the whole "
-        "pool in up to 12 orders; non-trivial = more than one overload and at least one of them matches; distinct = distinct "
-        "(family, arguments)") % ((3, "14+12 of 34+28") if quick else (3, "34+28 (and 1..4 of the quick pool)"))
+        "Resolution.tla exhaustively: every family of %s x every argument tuple of that arity (%s) x every registration order "
+        "(+ mixed-arity families)%s; each (family, arguments) is replayed in all its registration orders (and every candidate "
+        "alone) against the real OperatorRegistry; plus random families of 4-6 overloads from the whole pool in up to 12 orders "
+        "(level A only); non-trivial = more than one overload and at least one of them matches; distinct = distinct "
+        "(family, arguments)") % (
+        ("1..3 overloads of one arity drawn from 14 arity-1 / 12 arity-2 candidates", "12 / 14 tuples", "") if quick else
+        ("1..3 overloads of one arity drawn from 24 arity-1 / 20 arity-2 candidates and of 1..2 drawn from all 34 / 28", "23 / 33 tuples",
+         "; families of 1..4 from the quick pool in all 24 orders are model checked without replay"))
     chk.assumptions.append("overloads are run-time constructed OperatorImpl records (patterns built with TypePattern / ScalarPattern / "
                            "ParamPattern, rank from operator_dispatch_detail::operator_rank); no defaults, kwargs, variadic tails, "
                            "requires predicates, size hints or requested output types; REF only at the top level of argument types")
